@@ -62,8 +62,11 @@ enum Rel {
     /// `z.required_if_eq_any(o = D | DI | DM)` with `o.ignore_case(true)`: the upper-case spellings
     /// of every default `o` can have — a default must not make `z` required
     ZRequiredIfOEqualsDefaultIgnoringCase,
+    /// `other` is an `Append` option and may be given several times: a conditional default that
+    /// tests `other == x` fires when ANY of its values is x
+    OtherAppend,
 }
-const RELS: [Rel; 14] = [
+const RELS: [Rel; 15] = [
     Rel::None,
     Rel::OConflictsOther,
     Rel::OtherConflictsO,
@@ -78,6 +81,7 @@ const RELS: [Rel; 14] = [
     Rel::IgnoreErrors,
     Rel::GlobalSub,
     Rel::ZRequiredIfOEqualsDefaultIgnoringCase,
+    Rel::OtherAppend,
 ];
 
 #[derive(Clone, Debug)]
@@ -182,6 +186,7 @@ impl Cfg {
                 o.ignore_case = true;
                 z.required_if_eq_any = vec![("o".into(), "D".into()), ("o".into(), "DI".into()), ("o".into(), "DM".into())];
             }
+            Rel::OtherAppend => other.action = Some(Act::Append),
             Rel::None => {}
         }
         c.args.push(o);
@@ -248,6 +253,7 @@ fn r3(c: &Cfg, seq: &[Tok]) -> Option<Option<(Src, Vec<String>)>> {
     // surviving command-line occurrences of o (override relation acts in both directions)
     let mut o_occ: Vec<Vec<String>> = vec![];
     let mut other_val: Option<&str> = None;
+    let mut other_has_x = false;
     for t in seq {
         match t {
             Tok::OEq | Tok::OSp | Tok::OBare => {
@@ -277,8 +283,11 @@ fn r3(c: &Cfg, seq: &[Tok]) -> Option<Option<(Src, Vec<String>)>> {
                 }
             }
             Tok::OtherX | Tok::OtherY => {
-                if other_val.is_some() {
+                if other_val.is_some() && c.rel != Rel::OtherAppend {
                     return None;
+                }
+                if *t == Tok::OtherX {
+                    other_has_x = true;
                 }
                 if matches!(c.rel, Rel::OOverridesOther | Rel::OtherOverridesO) {
                     o_occ.clear();
@@ -310,7 +319,13 @@ fn r3(c: &Cfg, seq: &[Tok]) -> Option<Option<(Src, Vec<String>)>> {
     for (pred, val) in ifs {
         let fires = match pred {
             None => other_val.is_some(),
-            Some(x) => other_val == Some(x),
+            Some(x) => {
+                if c.rel == Rel::OtherAppend && x == "x" {
+                    other_has_x
+                } else {
+                    other_val == Some(x)
+                }
+            }
         };
         if fires {
             return Some(val.map(|v| (Src::Default, vec![v.to_string()])));
@@ -462,7 +477,7 @@ fn all_cfgs(tier: Tier) -> Vec<Cfg> {
                     for env in ENVS {
                         for rel in RELS {
                             // quick: relations only with the simplest conditional-default settings
-                            if tier == Tier::Quick && rel != Rel::None && !matches!(dif, DIf::None | DIf::PresentThen) {
+                            if tier == Tier::Quick && rel != Rel::None && rel != Rel::OtherAppend && !matches!(dif, DIf::None | DIf::PresentThen) {
                                 continue;
                             }
                             let c = Cfg { kind, default, dif, dm, env, rel };
